@@ -783,3 +783,52 @@ C19_EXAMINE = dict(
             ("Found job dir with no apparent ancestor" + _NAMES_DIR, "SNamed 2 (fst {plate_dir})")],
 )
 ALL += [C19_EXAMINE]
+
+# run_next_retrospective_step / run_next_prospective_step.  `acts` (no variable of the source) is the list of file-system
+# actions done so far; every read of the output directory reads `tree_after output_dir' acts'`, the tree as it is then.
+# A path built with os.path.join is the step (i, j) / the iteration index i it names.
+_NOW = "(tree_after output_dir' acts')"
+_STEP = dict(
+    _C19, pyparams=["output_dir", "input_screen", "extra_args", "batch_size"],
+    params=[("output_dir", "fs"), ("input_screen", "spath"), ("batch_size", "Z")],      # extra_args is only handed on
+    returns="bool", return_state=["acts'"], predefine={"acts": "[]"}, tail_dup=True,
+    vars={"acts": "list action", "experiment_name": "ename", "_": "ename",
+          "current_iter_index": "Z", "current_plate_idx": "Z", "last_successful_run_meta": "opt Z", "current_screen": "opt spath",
+          "plates_remaining": "Z", "job_output_dir": "step", "already_selected_plates": "opt list Z",
+          "first_output_dir": "step", "test_screen": "opt spath", "first_plate_of_iter_output_dir": "step",
+          "theta_and_dist_chunks": "step"},
+    prims=[
+        ("os.path.splitext(os.path.basename(input_screen))", "(tt, tt)", "(ename * ename)"),
+        # the callee is the translated examine (C19_EXAMINE), run on the tree as it is now
+        ("examine_output_dir_to_determine_current_iteration(output_dir, batch_size)", "!src_examine %s batch_size'" % _NOW,
+         "(Z * Z * opt Z * opt spath)"),
+        ("__m['n_unobserved_plates']", "{m}", "Z", {"m": "Z"}),           # the metadata object IS that entry
+        ("os.path.join(output_dir, f'iter_{__i}', f'plate_{__j}')", "({i}, {j})", "step", {"i": "Z", "j": "Z"}),
+        ("os.path.join(output_dir, f'iter_0', f'plate_0')", "(0, 0)", "step"),
+        ("os.path.join(output_dir, f'iter_{__i}', 'plate_0')", "({i}, 0)", "step", {"i": "Z"}),
+        ("get_selected_plates(os.path.join(output_dir, f'iter_{__i}'))", "get_selected %s {i}" % _NOW, "opt list Z", {"i": "Z"}),
+        ("get_test_screen_from_job_output(__d)", "test_screen_of %s {d}" % _NOW, "opt spath", {"d": "step"}),
+        ("get_theta_and_dist_chunks(__d)", "!theta_chunks %s acts' {d}" % _NOW, "step", {"d": "step"}),
+    ],
+    effects=[
+        ("shutil.rmtree(job_output_dir, ignore_errors=True)", "acts'", "{state} ++ [ARmTree job_output_dir']"),
+        # makedirs creates one directory per missing path component
+        ("os.makedirs(job_output_dir, exist_ok=True)", "acts'", "{state} ++ [AMkIter (fst job_output_dir'); AMkPlate job_output_dir']"),
+        ("run_initial_plate(output_dir=__o, screen=__s, experiment_name=experiment_name, extra_args=extra_args)",
+         "acts'", "!launch_cmd {state} {o} (Some (LInit {s}))"),
+        ("run_first_batch_plate(output_dir=__o, training_screen=__t, test_screen=__s, experiment_name=experiment_name, "
+         "extra_args=extra_args)", "acts'", "!launch_cmd {state} {o} (first_cmd {t} {s})"),
+        ("run_first_prospective_batch_plate(output_dir=__o, screen=__s, experiment_name=experiment_name, extra_args=extra_args)",
+         "acts'", "!launch_cmd {state} {o} (Some (LProsp {s}))"),
+    ],
+    # creation of the output directory itself is not modelled (Orchestrate.v header)
+    ignore=["logger.info(__a)", "os.makedirs(output_dir, exist_ok=True)"],
+    raises=[("Could not find test screen in {first_output_dir}", "SRaised {acts} 1")],
+)
+_RUN_NEXT = ("run_subsequent_batch_plate(output_dir=__o, screen=__s, experiment_name=experiment_name, extra_args=extra_args, "
+             "thetas=__t['thetas'], dist_chunks=__t['dist_chunks'], excludes=__x)")
+C19_RETRO = dict(_STEP, func="run_next_retrospective_step", name="src_run_next_retrospective_step",
+                 effects=_STEP["effects"] + [(_RUN_NEXT, "acts'", "!launch_cmd {state} {o} (next_cmd {s} {t} {x})")])         # screen=current_screen: Optional
+C19_PROSP = dict(_STEP, func="run_next_prospective_step", name="src_run_next_prospective_step",
+                 effects=_STEP["effects"] + [(_RUN_NEXT, "acts'", "!launch_cmd {state} {o} (next_cmd (Some {s}) {t} {x})")])  # screen=input_screen
+ALL += [C19_RETRO, C19_PROSP]
